@@ -27,6 +27,46 @@ def file_tables():
     return out
 
 
+def iso_first_load(args):
+    """runs in a process of its own: the FIRST load of every table happens while torch's default dtype is args['dtype'];
+    then the default is set back to float64 and every loader must return the stored arrays (the cache is keyed by table
+    name only: what the default dtype was at the first load is nobody's business)"""
+    import torch
+    import pytorch_wavelets.dtcwt.coeffs as coeffs
+    try:
+        torch.set_default_dtype(getattr(torch, args['dtype']))
+    except Exception as e:
+        return ('skip', '%s: %s' % (type(e).__name__, str(e)[:80]))
+    files = file_tables()
+    try:
+        for name, t in files.items():
+            for fn in ((lambda: coeffs.level1(name, compact=True)), (lambda: coeffs.biort(name)), (lambda: coeffs.qshift(name)), (lambda: coeffs.level1(name, compact=False))):
+                try:
+                    fn()
+                except Exception:
+                    pass
+    finally:
+        torch.set_default_dtype(torch.float64)
+    bad = []
+    for name, t in files.items():
+        calls = []
+        if all(k in t for k in L1_KEYS):
+            keys = L1_KEYS + (('h2o', 'g2o') if name == 'near_sym_b_bp' else ())
+            calls.append(('level1(%s, compact=True)' % name, lambda n=name: coeffs.level1(n, compact=True), keys))
+            calls.append(('biort(%s)' % name, lambda n=name: coeffs.biort(n), keys))
+        if all(k in t for k in Q_KEYS):
+            keys = Q_KEYS + (('h2a', 'h2b', 'g2a', 'g2b') if name == 'qshift_b_bp' else ())
+            calls.append(('qshift(%s)' % name, lambda n=name: coeffs.qshift(n), keys))
+        for what, fn, keys in calls:
+            try:
+                a = fn()
+            except Exception as e:
+                bad.append('%s raises %s' % (what, type(e).__name__)); continue
+            if not (len(a) == len(keys) and all(np.asarray(x).shape == np.asarray(t[k]).shape and np.array_equal(x, t[k]) for x, k in zip(a, keys))):
+                bad.append(what)
+    return ('ok', bad)
+
+
 def ac(a, b, n):
     a = np.ravel(a); b = np.ravel(b)
     return float(sum(a[k] * b[k + 2 * n] for k in range(len(a) - 2 * n)))
@@ -107,6 +147,18 @@ def run(ck):
                 else:
                     st.classes.add((what, tag))
     loader_check('fresh')
+    # the first load of every table in a process under another default dtype (fresh processes)
+    dts = ['float16', 'bfloat16', 'float32']
+    for dt_, res in zip(dts, rt.iso_run([{'module': 'harness.props.c18', 'func': 'iso_first_load', 'args': {'dtype': d}} for d in dts])):
+        st.evaluations += 1
+        if isinstance(res, tuple) and res and res[0] == 'ok':
+            if res[1]:
+                ck.fail('after a FIRST load of the tables under torch default dtype %s (fresh process) and a switch back to float64, %s no longer returns the arrays stored in the shipped file'
+                        % (dt_, res[1][0]), {'oracle': 'first-load-dtype', 'dtype': dt_, 'calls': res[1][:6]})
+            else:
+                st.classes.add(('first-load', dt_))
+        else:
+            ck.notes.append('first-load history under %s not run: %s' % (dt_, str(res)[:100]))
     # numeric identities (the failing-input search for the Lean theorems) + reference comparison
     import dtcwt.coeffs as ref
     for name, t in files.items():
